@@ -372,3 +372,51 @@ H("C15", "builder", "c15_annotate_omim_absent", mem="heavy", tq=1200, args=FS, b
 H("C15", "builder", "c15_annotate_orpha_absent", mem="heavy", tq=1200, args=FS, bounds="annotate_orpha_disease on an absent term id")
 H("C15", "builder", "c15_annotate_orpha_present", tier="thorough", mem="heavy", tt=3600, args=FS, bounds="annotate_orpha_disease on a present term")
 H("C15", "builder", "c15_twin_must_fail", expect="fail", args=FS)
+
+# ------------------------------------------------------------------------------------------------
+# C01
+# ------------------------------------------------------------------------------------------------
+PROPERTIES["C01"] = dict(
+    functions=["Builder::add_parent / add_parent_unchecked", "Builder::create_cache_of_grandparents / all_grandparents (one step, and one recursive level)",
+               "HpoTermInternal::parents_cached / add_parent / add_child", "HpoTerm::child_of / parent_of / parent_ids / all_parent_ids / children_ids"],
+    bounds="3 directly inserted terms with concrete ids; parents(t) per instance in {{}, {2}, {1,2}}; the parents' ancestor sets have 0..2 members with arbitrary u32 ids; "
+           "accessors: ancestors/parents/children any subsets of an ascending symbolic universe of 4, own ids any u32; unwind 6-8",
+    stubs=["std::hash::RandomState::new -> fixed keys", "Arena::default() replaced by a directly built small arena"],
+    outside="that the memoised mutual recursion of connect_all_terms composes the steps correctly for every DAG shape and insertion order (3 terms with symbolic edges: "
+            "> 48 min); the obo / binary / sub_ontology paths into the builder. A change of the recursion ORDER that keeps each single step correct is not detected.",
+    assumptions=["one-step: the parents of the processed term are already cached (or, in the chain harness, one level is not)"],
+)
+H("C01", "builder", "c01_add_parent_unchecked", mem="medium", tq=900, args=FS, bounds="both terms present; pre-state groups any subsets of 3 ids")
+H("C01", "builder", "c01_add_parent_inverse_relation", mem="medium", tq=900, args=FS, bounds="add_parent on present terms: child list and parent list change together")
+H("C01", "builder", "c01_cache_step_two_parents_1_1", mem="heavy", tq=1500, args=FS, bounds="t with parents {1,2}; 1 and 2 have one ancestor each, ids any u32 (equal = diamond)")
+H("C01", "builder", "c01_cache_step_two_parents_2_2", mem="heavy", tq=1500, args=FS, bounds="t with parents {1,2}; 1 and 2 have two ancestors each, ids any u32")
+H("C01", "builder", "c01_cache_step_two_parents_2_0", mem="heavy", tq=1500, args=FS, bounds="t with parents {1,2}; 1 has two ancestors, 2 is a root")
+H("C01", "builder", "c01_cache_step_second_parent_only", mem="heavy", tq=1500, args=FS, bounds="t with parent {2} only (term 1 present but unrelated), 2 ancestors each")
+H("C01", "builder", "c01_cache_step_root", mem="medium", tq=900, args=FS, bounds="t without parents")
+H("C01", "builder", "c01_cache_step_recursive_chain", mem="heavy", tq=1500, args=FS, bounds="chain 1 <- 2 <- 3 with 2 not cached; ancestors(1) = two arbitrary ids")
+H("C01", "internal", "c01_parents_cached_truth_table", bounds="parents, ancestors any subsets of 2 ids")
+H("C01", "internal", "c01_term_add_parent_add_child", bounds="any two u32 ids")
+H("C01", "hpoterm", "c01_accessors_answer_from_closure", mem="medium", tq=900, bounds="ancestors/parents/children any subsets of an ascending symbolic universe of 4; own and probe ids any u32")
+H("C01", "builder", "c01_twin_must_fail", expect="fail", args=FS)
+
+# ------------------------------------------------------------------------------------------------
+# C04
+# ------------------------------------------------------------------------------------------------
+PROPERTIES["C04"] = dict(
+    functions=["Resnik/Lin/Jc/Relevance/InformationCoefficient/GraphIc/Mutation ::calculate", "Builtins::calculate (dispatch)",
+               "HpoTerm::all_common_ancestors / all_union_ancestors / information_content", "term::Iter::next (arena lookups)"],
+    bounds="one fixed 4-term ontology (root <- inner <- two siblings), pairs per instance (siblings, descendant/ancestor, identical, descendant/root); information contents of all "
+           "four terms symbolic on the grid k/8, k <= 128 (129^4 combinations) with the C03 monotonicity assumed; kind per instance; unwind 7",
+    stubs=["f32::exp -> deterministic monotone model x+1 (Relevance only)", "std::hash::RandomState::new -> fixed keys"],
+    outside="Distance (recursive distance_to_term over the arena); Mutation with non-empty annotation sets (hash-set algebra); other DAG shapes; "
+            "GraphIC's denominator is accepted with or without the two terms themselves (the documentation does not fix it)",
+    assumptions=["information contents are finite, in [0,16] (ln 65535 < 16) and non-decreasing from ancestor to descendant (C03)"],
+)
+C04Q = ["c04_resnik_siblings_gene", "c04_lin_siblings_gene", "c04_jc_siblings_gene", "c04_graphic_siblings_gene", "c04_mutation_distinct_gene", "c04_mutation_distinct_omim", "c04_mutation_self_gene"]
+C04T = ["c04_resnik_desc_anc_omim", "c04_lin_self_orpha", "c04_jc_self_omim", "c04_jc_desc_root_orpha", "c04_relevance_siblings_omim", "c04_infocoeff_siblings_gene",
+        "c04_infocoeff_desc_anc_orpha", "c04_graphic_desc_anc_omim", "c04_graphic_self_gene", "c04_mutation_distinct_orpha", "c04_builtins_dispatch_resnik_lin"]
+for n in C04Q:
+    H("C04", "similarity_defaults", n, mem="heavy", tq=1500, args=FS, replay=("native" if "mutation" in n else "native"), bounds=n[4:])
+for n in C04T:
+    H("C04", "similarity_defaults", n, tier="thorough", mem="heavy", tt=3600, args=FS, bounds=n[4:])
+H("C04", "similarity_defaults", "c04_twin_must_fail", expect="fail", args=FS)
